@@ -325,7 +325,9 @@ def run(ctx):
         ctx.ob("TEX", "size-table", adv2 and widths == ["i16"], "the running block position advances by the i16 compressed-size table entries", tb.file, tb.line)
 
     # ---- MODEL member consistency
-    mb = prog.body("sqpack::data::SqPackData::read_model_file")
+    # this rule is about the call sites of the two section-reading closures, so it reads the function as written
+    # (raw MIR), not the inlined form
+    mb = prog.raw_body("sqpack::data::SqPackData::read_model_file")
     if not mb:
         ctx.fail_closed("MODEL", "read_model_file not found")
     else:
